@@ -4,7 +4,7 @@ TAGS = ("C11",)
 from props.common import ALL_CONTRACTS
 CONTRACT_MODULES = ALL_CONTRACTS
 P = "__init__.ExcludeRegionPlugin."
-FUNCTIONS = [P + "on_event", P + "handleGcodeQueuing", P + "handleAtCommandQueuing",
+FUNCTIONS = [P + "on_event", P + "handleGcodeQueuing", P + "handleAtCommandQueuing", P + "handleScriptHook",
              "ExcludeRegionState.ExcludeRegionState.resetState"]
 ASSUMPTIONS = ["A1", "A3", "A4", "INDUCTION"]
 EXTRA_ASSUMPTIONS = ["Events.SETTINGS_UPDATED is outside the on_event contract: _handleSettingsUpdated (settings plumbing) is unverified surroundings",
